@@ -381,17 +381,17 @@ func parseValue(v string) uint64 {
 // multiplication) go to cvc5's integer encoding first, everything else to the main bit-blasting solver;
 // an "unknown" from one back end is retried on the other.
 type SolverMux struct {
-	kind     string
-	timeout  int
-	main     *Solver
-	alt      *Solver
-	known    map[*Term]bool
-	queries  int64
-	dur      time.Duration
-	maxQ     time.Duration
-	errs     []string
-	altUsed  int64
-	rescued  int64
+	kind    string
+	timeout int
+	main    *Solver
+	alt     *Solver
+	known   map[*Term]bool
+	queries int64
+	dur     time.Duration
+	maxQ    time.Duration
+	errs    []string
+	altUsed int64
+	rescued int64
 }
 
 func newSolver(kind string, timeoutMs int) *SolverMux {
